@@ -89,6 +89,77 @@ def run_sessions(out, corr, rnd, jobs, monitor_names, tag, nontrivial=None, skip
     return good
 
 
+def run_ctl_histories(out, corr, rnd, n, monitor_names, tag="controller histories (injected worker messages)", modes=None, job_extra=None):
+    """controller-level correspondence: the real DSession/scheduler/WorkerController fed with worker messages written by an
+    abstract protocol-following worker that can also exit on a keyboard interrupt, exit with a stop request, send an
+    internal_error event, send something undecodable or die at any point (harness/drive_ctl.py) — compared step by step with
+    Model/CtlRun.v (the same System.v transition function plus message injection), monitors on the implementation side"""
+    jobs = []
+    for _ in range(n):
+        j = {"kind": "online", "seed": rnd.randrange(1 << 30)}
+        if modes:
+            j["mode"] = rnd.choice(modes)
+        if job_extra:
+            j.update(job_extra(rnd))
+        jobs.append(j)
+    res = run_jobs("drive_ctl.py", jobs, nproc=14, timeout=1500)
+    good, inputs, impl_obs = [], [], []
+    hist = collections.Counter()
+    for j, r in zip(jobs, res):
+        if not isinstance(r, dict):
+            out.broke("driver:ctl", {"job": j, "result": str(r)[:1500]})
+            continue
+        good.append(r)
+        inputs.append([r["wire"], r["ops"]])
+        impl_obs.append(r["obs"])
+        hist["mode:" + r["cfg"]["mode"]] += 1
+        hist["result:" + str((r["summary"]["result"] or ["running"])[0])] += 1
+        hist["ops"] += len(r["ops"])
+        faults = collections.Counter(o[2][0] + (":%d" % o[2][1] if o[2][0] == "workerfinished" else "") for o in r["ops"]
+                                     if o[0] == "inject" and o[2][0] in ("internal_error", "garbled", "END", "workerfinished", "warning_recorded"))
+        for k, v in faults.items():
+            hist["inject:" + k] += v
+        hist["crash_labels"] += sum(1 for o in r["ops"] if o[0] == "crash")
+        fault_names = sorted({o[2][0] if o[2][0] != "workerfinished" else "workerfinished:%d" % o[2][1] for o in r["ops"]
+                              if o[0] == "inject" and (o[2][0] in ("internal_error", "garbled") or (o[2][0] == "workerfinished" and o[2][1] == 2))})
+        for s, d in monitors.run_monitors(r, monitor_names):
+            s = dict(s, level="controller-history", after_internal_error="internal_error" in fault_names,
+                     after_undecodable="garbled" in fault_names, after_keyboard_interrupt="workerfinished:2" in fault_names)
+            out.report(s, {"detail": d, "seed": j.get("seed"), "cfg": {k: v for k, v in r["cfg"].items() if k not in ("reports", "durs")},
+                           "last_ops": r["ops"][-12:]}, {"cfg": r["cfg"], "ops": r["ops"]})
+    model_obs = corr.model.batch("ctl", inputs) if inputs else []
+    mism = []
+    for k, (r, a, b) in enumerate(zip(good, impl_obs, model_obs)):
+        if b == ["bad-input"]:
+            mism.append({"index": k, "why": "model rejected the input"}); continue
+        b = [canon_model_step(x) for x in b]
+        if a != b:
+            first = next((i for i, (x, y) in enumerate(zip(a, b)) if x != y), min(len(a), len(b)))
+            mism.append({"index": k, "step": first, "op": r["ops"][first] if first < len(r["ops"]) else None,
+                         "impl": a[first] if first < len(a) else None, "model": b[first] if first < len(b) else None,
+                         "cfg": {kk: v for kk, v in r["cfg"].items() if kk not in ("reports", "durs")}, "ops": r["ops"][: first + 1]})
+    out.coverage.setdefault("correspondence", {})[tag] = {"cases": len(inputs), "mismatches": len(mism), "histogram": dict(hist),
+                                                         "distinct_nontrivial": sum(1 for r in good if any(o[0] == "inject" and o[2][0] in ("internal_error", "garbled", "END") or (o[0] == "inject" and o[2] == ["workerfinished", 2]) for o in r["ops"]))}
+    out.coverage["evaluations"] = out.coverage.get("evaluations", 0) + len(inputs)
+    ok_idx = [k for k in range(len(inputs)) if impl_obs[k] == [canon_model_step(x) for x in model_obs[k]] and len(inputs[k][1]) < 300]
+    rnd.shuffle(ok_idx)
+    for k in ok_idx[:4]:
+        corr.incoq.append(("ctl", inputs[k], model_obs[k]))
+    if mism:
+        out.broke("correspondence:" + tag, mism[:3])
+    return good
+
+
+def ctl_extra(monitor_names, quick_n=150, thorough_n=6000, then=None, job_extra=None):
+    """an extra_corr hook for standard_run: controller histories with the given monitors (then another hook)"""
+    def hook(out, corr, rnd):
+        n = int((quick_n if out.tier == "quick" else thorough_n) * out.boost)
+        run_ctl_histories(out, corr, rnd, n, monitor_names, job_extra=job_extra)
+        if then:
+            then(out, corr, rnd)
+    return hook
+
+
 def make_jobs(rnd, n, profile, modes=None, ext_crash_p=None, **extra):
     jobs = []
     for _ in range(n):
